@@ -80,6 +80,8 @@ pub struct Node {
     pub node_id_hex: String,
     /// number of datastore mutations applied (each is a possible crash image)
     pub ds_mutations: u64,
+    /// the first part of every pay gets partid 0 (lightningd's unsplit payments)
+    pub first_partid_zero: bool,
 }
 
 fn key_of(params: &Value) -> Result<Vec<String>, RpcErr> {
@@ -255,13 +257,16 @@ impl Node {
             "id": p.id,
             "created_index": p.id,
             "groupid": p.groupid,
-            "partid": p.partid,
             "payment_hash": p.hash_hex,
             "status": match p.status { PartStatus::Pending => "pending", PartStatus::Complete => "complete", PartStatus::Failed => "failed" },
             "amount_msat": p.amount_msat,
             "amount_sent_msat": p.amount_msat,
             "created_at": 1_700_000_000u64 + p.id,
         });
+        // like lightningd: partid is omitted when it is 0 (single-part payments)
+        if p.partid != 0 {
+            v["partid"] = json!(p.partid);
+        }
         if let (PartStatus::Complete, Some(pre)) = (p.status, p.preimage) {
             v["payment_preimage"] = json!(hex::encode(pre));
             v["completed_at"] = json!(1_700_000_100u64 + p.id);
@@ -364,13 +369,14 @@ impl Node {
     pub fn add_part(&mut self, pay_id: u64, amount_msat: u64) -> Option<u64> {
         let pay = self.pays.iter_mut().find(|p| p.id == pay_id && p.running)?;
         pay.parts_created += 1;
+        let partid = if self.first_partid_zero { pay.parts_created - 1 } else { pay.parts_created };
         let id = self.next_part_id;
         self.next_part_id += 1;
         let part = Part {
             id,
             hash_hex: pay.hash_hex.clone(),
             groupid: pay.groupid,
-            partid: pay.parts_created,
+            partid,
             status: PartStatus::Pending,
             preimage: None,
             fail_code: None,
